@@ -1,5 +1,6 @@
 mod expressions_as_statement;
 mod filter_pattern;
+mod json5_value;
 pub(crate) mod lines;
 mod luau_config;
 mod preserve_arguments_side_effects;
@@ -10,6 +11,7 @@ mod timer;
 
 pub(crate) use expressions_as_statement::{expressions_as_expression, expressions_as_statement};
 pub(crate) use filter_pattern::FilterPattern;
+pub use json5_value::Json5Value;
 pub(crate) use luau_config::{clear_luau_configuration_cache, find_luau_configuration};
 pub(crate) use preserve_arguments_side_effects::preserve_arguments_side_effects;
 pub(crate) use scoped_hash_map::ScopedHashMap;
